@@ -222,7 +222,9 @@ Definition get_pos_backward (j : journal) (cid idx : Z) : option chunk * (Z * Z)
       end
   end.
 
-(* ensureChkIt: the position is overwritten by the selector's answer in every case *)
+(* ensureChkIt: the position is overwritten by the selector's answer, except in backward mode when the selector
+   found no chunk (before the first record): there the position is kept, so that the backward end is stable
+   (the selector's answer, the first record of the first chunk, would be delivered again by the next Get) *)
 Definition pj_ensure (j : journal) (s : jit) : jit * bool :=
   match j_ci s with
   | Some _ => (s, true)
@@ -231,7 +233,7 @@ Definition pj_ensure (j : journal) (s : jit) : jit * bool :=
                                 else get_pos_forward j (j_cid s) (j_idx s) in
       let s1 := j_with_pos s cid idx in
       match chk with
-      | None => (s1, false)
+      | None => (if j_bk s then s else s1, false)
       | Some c => (open_ci (c_cnt c) s1, true)
       end
   end.
